@@ -83,7 +83,7 @@ def run_job(job, workroot, tools, support_o):
         if not root and re.search(r"(?<![\w-])(u?int(8|16|32|64)-t|size-t)(?![\w-])", wit_text) and \
                 re.search(r"expected ';' after expression|undeclared identifier|redefinition of|expected identifier", e):
             root = "stdint-typename-as-identifier"
-        return {"status": "violation", "stage": "clang", "sig": compz.signature(job, "c:clang:", root or compz.normalise(e)), "what": "clang rejects the generated C: " + e,
+        return {"status": "violation", "stage": "clang", "sig": compz.signature(job, "c:clang:", root or compz.normalise(e), closed=("stdint-typename-as-identifier",)), "what": "clang rejects the generated C: " + e,
                 "detail": err[:1500]}
     with open(os.path.join(d, hs[0])) as f:
         scraped = cscrape.scrape_header(f.read())
@@ -176,6 +176,9 @@ def run(tier, seed, replay):
                     if len(rep.samples) < 6:
                         rep.samples.append({"job": j["id"], "args": j["args"], "world": r["world"], "import_funcs": r["imports"], "export_funcs": r["exports"]})
                 elif r["status"] == "violation":
+                    tally = rep.extra.setdefault("violation_tally", {})
+                    k = "%s | %s" % (r["sig"], compz.normalise(r["what"].split(": ", 1)[-1]))
+                    tally[k] = tally.get(k, 0) + 1
                     rep.add_eval(vcommon.stable_hash([compz.read_wit(j["wit"]), j["variant"]]))
                     rep.violation(r["sig"], "%s [job %s args %s]" % (r["what"], j["id"], " ".join(j["args"])),
                                   compz.job_replay(j, {"stage": r.get("stage"), "detail": r.get("detail", "")}))
